@@ -19,20 +19,34 @@ uint32_t vstub_crc32(const uint8_t *buf, size_t size, uint32_t crc) { (void)buf;
 #include "../../spec/xzspec.h"
 
 /* ---- stubs ---- */
+/* The stubs' nondeterministic choices come from a table filled on first use, indexed by a
+ * call counter: an obligation that runs the decoder twice on the same input (one call vs.
+ * split) rewinds the counter, so that both runs see the SAME Block decoder / Index hash
+ * behaviour -- comparing runs in which the environment answered differently is meaningless. */
+#define NCH 16
+static uint64_t g_choice[NCH];
+static unsigned g_ci, g_filled;
+static uint64_t ch(void)
+{
+	CHECK(g_ci < NCH, "harness bound: number of stub choices");
+	const unsigned i = g_ci++ % NCH;
+	if (i >= g_filled) { g_choice[i] = nd_u64(); g_filled = i + 1; }     /* first use: arbitrary; after a rewind: the recorded answer */
+	return g_choice[i];
+}
 static uint64_t g_hash_size;          /* what lzma_index_hash_size() reports */
 static unsigned g_hash_appends, g_hash_inits;
 static uint64_t g_last_unpadded, g_last_uncomp;
 static int dummy_hash;
 lzma_index_hash *lzma_index_hash_init(lzma_index_hash *h, const lzma_allocator *a) { (void)h; (void)a; ++g_hash_inits; return (lzma_index_hash *)&dummy_hash; }
 void lzma_index_hash_end(lzma_index_hash *h, const lzma_allocator *a) { (void)h; (void)a; }
-lzma_ret lzma_index_hash_append(lzma_index_hash *h, lzma_vli u, lzma_vli c) { (void)h; ++g_hash_appends; g_last_unpadded = u; g_last_uncomp = c; return nd_bool() ? LZMA_OK : LZMA_DATA_ERROR; }
+lzma_ret lzma_index_hash_append(lzma_index_hash *h, lzma_vli u, lzma_vli c) { (void)h; ++g_hash_appends; g_last_unpadded = u; g_last_uncomp = c; return (ch() & 1) ? LZMA_OK : LZMA_DATA_ERROR; }
 lzma_vli lzma_index_hash_size(const lzma_index_hash *h) { (void)h; return g_hash_size; }
 lzma_ret lzma_index_hash_decode(lzma_index_hash *h, const uint8_t *in, size_t *in_pos, size_t in_size)
 {
 	(void)h; (void)in;
-	size_t k = nd_size(); ASSUME(k <= in_size - *in_pos);
+	size_t k = (size_t)ch(); ASSUME(k <= in_size - *in_pos);
 	*in_pos += k;
-	uint32_t r = nd_u32() % 3;
+	uint32_t r = (uint32_t)ch() % 3;
 	return r == 0 ? LZMA_OK : r == 1 ? LZMA_STREAM_END : LZMA_DATA_ERROR;
 }
 static uint64_t g_memusage; static unsigned g_block_inits;
@@ -49,16 +63,16 @@ static lzma_ret blk_code(void *c, const lzma_allocator *a, const uint8_t *restri
 		uint8_t *restrict out, size_t *restrict out_pos, size_t out_size, lzma_action action)
 {
 	(void)c; (void)a; (void)in; (void)out; (void)action;
-	size_t ki = nd_size(), ko = nd_size();
+	size_t ki = (size_t)ch(), ko = (size_t)ch();
 	ASSUME(ki <= in_size - *in_pos && ko <= out_size - *out_pos);
 	*in_pos += ki; *out_pos += ko;
-	uint32_t r = nd_u32() % 3;
+	uint32_t r = (uint32_t)ch() % 3;
 	return r == 0 ? LZMA_OK : r == 1 ? LZMA_STREAM_END : LZMA_DATA_ERROR;
 }
 lzma_ret lzma_block_decoder_init(lzma_next_coder *next, const lzma_allocator *a, lzma_block *b)
 {
 	(void)a; (void)b; ++g_block_inits;
-	if (nd_bool()) return LZMA_MEM_ERROR;
+	if (ch() & 1) return LZMA_MEM_ERROR;
 	next->code = &blk_code; next->coder = &dummy_hash;
 	return LZMA_OK;
 }
@@ -67,6 +81,7 @@ static void base_coder(lzma_stream_coder *c)
 {
 	static const lzma_stream_coder zero_coder;
 	*c = zero_coder;
+	g_ci = 0; g_filled = 0;
 	c->index_hash = (lzma_index_hash *)&dummy_hash;
 	c->memlimit = nd_u64(); if (c->memlimit == 0) c->memlimit = 1;
 	c->memusage = LZMA_MEMUSAGE_BASE;
@@ -116,6 +131,7 @@ void harness_padding(void)
 	/* run 2: the same input cut at a symbolic position, the first part with LZMA_RUN */
 	size_t k = nd_size(); ASSUME(k <= n);
 	size_t ip2 = 0, op2 = 0;
+	g_ci = 0;                 /* same environment answers as in run 1 */
 	lzma_ret r2 = stream_decode(&b, NULL, in, &ip2, k, out, &op2, 0, LZMA_RUN);
 	if (r2 == LZMA_OK && b.sequence == SEQ_STREAM_PADDING) {
 		r2 = stream_decode(&b, NULL, in, &ip2, n, out, &op2, 0, finish ? LZMA_FINISH : LZMA_RUN);
